@@ -148,14 +148,14 @@ class Check:
         (EVID / f"{self.pid}.json").write_text(json.dumps(ev, indent=1, default=jdefault) + "\n")
         for ln in lines:
             print(ln)
-        if self.machinery:
-            for m in self.machinery:
-                print(f"MACHINERY-FAILURE property={self.pid} {m}", file=sys.stderr)
-            print(f"check {self.pid}: machinery failure ({len(self.machinery)}) after {wall:.1f}s", file=sys.stderr)
-            return 2
+        for m in self.machinery:
+            print(f"MACHINERY-FAILURE property={self.pid} {m}", file=sys.stderr)
         if self.violations:
             print(f"check {self.pid}: {len(self.violations)} unlisted violation key(s) after {wall:.1f}s")
             return 1
+        if self.machinery:
+            print(f"check {self.pid}: machinery failure ({len(self.machinery)}) after {wall:.1f}s", file=sys.stderr)
+            return 2
         print(f"check {self.pid}: OK tier={self.tier} seed={self.seed} states={self.states} traces={self.traces} "
               f"evaluations={self.evaluations} distinct={len(self.distinct)} known={sum(self.hit.values())} "
               f"wall={wall:.1f}s")
